@@ -867,6 +867,12 @@ class Machine:
                 break
             except Continue:
                 v = True
+            except Return:
+                # leaving the function from inside the loop ends the loop
+                # like any other exit: the loop variable goes with it
+                for nm in names:
+                    env.vars.pop(nm, None)
+                raise
         for nm in names:
             env.vars.pop(nm, None)
         return v
